@@ -2,6 +2,7 @@ package pongo2
 
 type tagIncludeNode struct {
 	tpl               *Template
+	referrer          *Template // the template the tag is written in (lazy includes)
 	filenameEvaluator IEvaluator
 	lazy              bool
 	only              bool
@@ -41,10 +42,11 @@ func (node *tagIncludeNode) Execute(ctx *ExecutionContext, writer TemplateWriter
 			return ctx.Error("Filename for 'include'-tag evaluated to an empty string.", nil)
 		}
 
-		// Get include-filename
-		includedFilename := ctx.template.set.resolveFilename(ctx.template, filename.String())
+		// Get include-filename (relative to the template the tag is written in,
+		// which is not ctx.template when that template extends another one)
+		includedFilename := node.referrer.set.resolveFilename(node.referrer, filename.String())
 
-		includedTpl, err2 := ctx.template.set.FromFile(includedFilename)
+		includedTpl, err2 := node.referrer.set.FromFile(includedFilename)
 		if err2 != nil {
 			// if this is ReadFile error, and "if_exists" flag is enabled
 			// (only if it is the named template that is missing, not one it refers to)
@@ -116,6 +118,7 @@ func tagIncludeParser(doc *Parser, start *Token, arguments *Parser) (INodeTag, *
 		}
 		includeNode.filenameEvaluator = filenameEvaluator
 		includeNode.lazy = true
+		includeNode.referrer = doc.template
 		includeNode.ifExists = arguments.Match(TokenIdentifier, "if_exists") != nil // "if_exists" flag
 	}
 
